@@ -64,13 +64,19 @@ def jdump(x):
 
 
 class Driver(object):
-    def __init__(self, defn, inputs=None, item_task_running=False, lifecycle=0, spec=None):
+    def __init__(self, defn, inputs=None, item_task_running=False, lifecycle=0, spec=None, lazy=False):
         self.defn = defn
         self.inputs = inputs or {}
         self.spec = spec or native_specs.WorkflowSpec(copy.deepcopy(defn))
         self.c = conducting.WorkflowConductor(self.spec, inputs=copy.deepcopy(self.inputs))
         self.item_task_running = item_task_running
         self.lifecycle = lifecycle  # 0: RUNNING only; 1: REQUESTED,SCHEDULED,RUNNING
+        # lazy: the first status report of a dispatched action (requested/scheduled/running) is not made
+        # at dispatch but later - before its next report or, at the latest, before the next poll - so that
+        # requests and the reports of other actions can land between the offer and the first report
+        self.lazy = lazy
+        self.unstarted = []  # dispatched actions whose first report is still to come (also in inflight)
+        self._first = {}
         self.inflight = []  # [task, route, item] dispatched, last report active
         self.dormant = []  # last report pending/paused
         self.completed = []  # (task, route, item, status)
@@ -137,7 +143,16 @@ class Driver(object):
     def apply(self, op):
         kind = op["op"]
         rec = {"op": op, "before": self.status(), "offers": [], "rejected": False}
-        if kind == "poll":
+        if kind in ("done", "report") and list(op["a"]) in self.unstarted:
+            self.begin(list(op["a"]))
+        if kind == "begin":
+            if list(op["a"]) in self.unstarted:
+                self.begin(list(op["a"]))
+        elif kind == "poll":
+            # a provider reports what it started before it asks again (the engine offers a task until
+            # its first report arrives)
+            for a in list(self.unstarted):
+                self.begin(a)
             tasks = self.next_tasks()
             for t in tasks:
                 o = {
@@ -223,18 +238,35 @@ class Driver(object):
                 self.dispatched.append((tid, route, "empty"))
                 self.completed.append((tid, route, "empty", st.SUCCEEDED))
                 return
-            if self.item_task_running:
+            if self.item_task_running and not self.lazy:
                 self._upd(tid, route, events.ActionExecutionEvent(st.RUNNING))
             for a in t["actions"]:
-                for s in self._startup((tid, route, a["item_id"])):
-                    self._upd(tid, route, events.TaskItemActionExecutionEvent(a["item_id"], s))
-                self.inflight.append([tid, route, a["item_id"]])
-                self.dispatched.append((tid, route, a["item_id"]))
+                self._launch([tid, route, a["item_id"]])
         else:
-            for s in self._startup((tid, route, None)):
-                self._upd(tid, route, events.ActionExecutionEvent(s))
-            self.inflight.append([tid, route, None])
-            self.dispatched.append((tid, route, None))
+            self._launch([tid, route, None])
+
+    def _launch(self, a):
+        key = tuple(a)
+        first = self._startup(key)
+        self.inflight.append(list(a))
+        self.dispatched.append(key)
+        if self.lazy:
+            self.unstarted.append(list(a))
+            self._first[key] = first
+        else:
+            self._send_first(a, first)
+
+    def _send_first(self, a, statuses_):
+        tid, route, item = a
+        for s in statuses_:
+            ev = events.ActionExecutionEvent(s) if item is None else events.TaskItemActionExecutionEvent(item, s)
+            self._upd(tid, route, ev)
+
+    def begin(self, a):
+        """first status report(s) of a dispatched action (lazy mode; the optional task-level running
+        report of a with-items task is not made in this mode)"""
+        self.unstarted.remove(list(a))
+        self._send_first(a, self._first.pop(tuple(a)))
 
     def _startup(self, key):
         # The full action lifecycle (requested, scheduled, running) is reported only for the first
